@@ -1,14 +1,16 @@
 // ---- shims/nested_maps_c14.rs : ASSUMED contracts for std BTreeMap and indexmap IndexMap as they
-// are used by the database overlay (radix-substate-store-impls/src/substate_database_overlay.rs):
-// nested maps, `get` / `get_mut` / `insert` / `remove` / `extend`, by-value iteration
-// (`into_iter()`) in `for` loops, and the adapter chains `m.into_iter().collect()` and
-// `m.into_iter().map(f).collect()` that convert one map type into the other.
+// are used by the database overlay (radix-substate-store-impls/src/substate_database_overlay.rs) and
+// the DatabaseUpdates helpers of radix-substate-store-interface/src/interface.rs: nested maps,
+// `get` / `get_mut` / `insert` / `remove` / `extend` / `entry(k).or_default()`, by-value iteration
+// (`into_iter()`, `for (k, v) in map`) in `for` loops, and the adapter chains
+// `m.into_iter().collect()` and `m.into_iter().map(f).collect()` that convert one map type into the
+// other.
 //
 // Every fn here is `external_body`: the real implementations (std::collections::BTreeMap,
 // indexmap::IndexMap) are trusted to meet their documented behaviour.  Abstract state: a finite
 // `Map<K, V>` view.  Key equality of the real maps (`Ord` for BTreeMap, `Hash + Eq` for IndexMap)
-// is identified with spec equality on K (true for the key types used: u8, Vec<u8>, newtypes of
-// Vec<u8>, whose Ord/Eq are structural).
+// is identified with spec equality on K (true for the key types used: u8, Vec<u8>, newtypes and
+// structs of those, whose Ord/Eq/Hash are structural).
 //
 // By-value iteration yields a sequence that ENUMERATES the map (`enumerates`): every binding
 // exactly once; the order (ascending for BTreeMap, insertion order for IndexMap) is not exposed.
@@ -17,6 +19,12 @@
 // so the real text `x.into_iter().map(f).collect()` resolves to them).  `collect()` into a map
 // inserts the yielded pairs in order (`Extend`/`FromIterator` of both map types: later pairs
 // overwrite earlier ones with the same key) -- spec fn `seq_to_map`.
+//
+// Determinism axioms (group_nmaps), needed because vstd specifies `x.into()` only through a spec
+// FUNCTION `from_spec(x)`: a BTreeMap value is determined by its content (`of` / ax_btree_ext),
+// its iteration sequence `sorted()` is a function of the map and enumerates it, and a collected
+// IndexMap is a function `from_seq` of the collected sequence with content `seq_to_map`.
+// The lemmas at the end of the file are PROVED (no trust).
 pub mod nmaps {
     use vstd::prelude::*;
 
@@ -52,17 +60,13 @@ pub mod nmaps {
         pub uninterp spec fn view(&self) -> Map<K, V>;
         /// THE BTreeMap with the given content (see ax_btree_of_view / ax_btree_ext)
         pub uninterp spec fn of(m: Map<K, V>) -> BTreeMap<K, V>;
-
-        #[verifier::external_body]
-        pub fn new() -> (r: Self) ensures r@ == Map::<K, V>::empty() { unimplemented!() }
+        /// the bindings in iteration order (std: ascending by key; only `enumerates` is exposed)
+        pub uninterp spec fn sorted(&self) -> Seq<(K, V)>;
 
         #[verifier::external_body]
         pub fn get(&self, key: &K) -> (r: Option<&V>)
             ensures match r { Some(v) => self@.contains_key(*key) && *v == self@[*key], None => !self@.contains_key(*key) }
         { unimplemented!() }
-
-        #[verifier::external_body]
-        pub fn contains_key(&self, key: &K) -> (r: bool) ensures r == self@.contains_key(*key) { unimplemented!() }
 
         /// the returned reference is the slot of `key`: the final map is the old map with `key`
         /// bound to whatever is finally stored behind the reference; nothing else changes
@@ -97,11 +101,8 @@ pub mod nmaps {
         /// by-value iteration (std: ascending key order, not exposed)
         #[verifier::external_body]
         pub fn into_iter(self) -> (r: IntoIter<K, V>)
-            ensures enumerates(r.rest(), self@)
+            ensures r.rest() == self.sorted(), enumerates(r.rest(), self@)
         { unimplemented!() }
-
-        #[verifier::external_body]
-        pub fn is_empty(&self) -> (r: bool) ensures r == (self@ == Map::<K, V>::empty()) { unimplemented!() }
     }
 
     /// ASSUMED: every finite map is the content of a BTreeMap, and a BTreeMap value is determined by
@@ -111,6 +112,9 @@ pub mod nmaps {
         ensures (#[trigger] BTreeMap::<K, V>::of(m))@ == m;
     pub broadcast axiom fn ax_btree_ext<K, V>(b: BTreeMap<K, V>)
         ensures BTreeMap::<K, V>::of(#[trigger] b@) == b;
+    /// ASSUMED: iterating a BTreeMap yields every binding exactly once
+    pub broadcast axiom fn ax_btree_sorted<K, V>(b: BTreeMap<K, V>)
+        ensures enumerates(#[trigger] b.sorted(), b@);
 
     impl<K, V> Default for BTreeMap<K, V> {
         #[verifier::external_body]
@@ -146,21 +150,13 @@ pub mod nmaps {
 
     impl<K, V> IndexMap<K, V> {
         pub uninterp spec fn view(&self) -> Map<K, V>;
+        /// THE IndexMap obtained by inserting the pairs front to back into an empty map
+        /// (`FromIterator`): an IndexMap is a deterministic function of its insertion history
+        pub uninterp spec fn from_seq(s: Seq<(K, V)>) -> IndexMap<K, V>;
 
         #[verifier::external_body]
         pub fn get(&self, key: &K) -> (r: Option<&V>)
             ensures match r { Some(v) => self@.contains_key(*key) && *v == self@[*key], None => !self@.contains_key(*key) }
-        { unimplemented!() }
-
-        #[verifier::external_body]
-        pub fn contains_key(&self, key: &K) -> (r: bool) ensures r == self@.contains_key(*key) { unimplemented!() }
-
-        #[verifier::external_body]
-        pub fn get_mut(&mut self, key: &K) -> (r: Option<&mut V>)
-            ensures match r {
-                Some(v) => old(self)@.contains_key(*key) && *v == old(self)@[*key] && final(self)@ == old(self)@.insert(*key, *final(v)),
-                None => !old(self)@.contains_key(*key) && final(self)@ == old(self)@,
-            }
         { unimplemented!() }
 
         #[verifier::external_body]
@@ -181,13 +177,17 @@ pub mod nmaps {
         { unimplemented!() }
     }
 
-    impl<K, V> Default for IndexMap<K, V> {
+    /// `for (k, v) in map` (IntoIterator by value): same as `map.into_iter()`
+    impl<K, V> core::iter::IntoIterator for IndexMap<K, V> {
+        type Item = (K, V);
+        type IntoIter = IntoIter<K, V>;
         #[verifier::external_body]
-        fn default() -> (r: Self) ensures r@ == Map::<K, V>::empty() { unimplemented!() }
+        fn into_iter(self) -> (r: IntoIter<K, V>) ensures enumerates(r.rest(), self@) { unimplemented!() }
     }
 
-    #[verifier::external_body]
-    pub fn index_map_new<K, V>() -> (r: IndexMap<K, V>) ensures r@ == Map::<K, V>::empty() { unimplemented!() }
+    /// ASSUMED: content of a collected IndexMap (later pairs overwrite earlier ones with the same key)
+    pub broadcast axiom fn ax_index_from_seq<K, V>(s: Seq<(K, V)>)
+        ensures (#[trigger] IndexMap::<K, V>::from_seq(s))@ == seq_to_map(s);
 
     // ============================================================== by-value entry iterator ==
     /// `into_iter()` of either map type: yields the owned pairs `rest()`
@@ -246,7 +246,7 @@ pub mod nmaps {
         open spec fn built_from(&self, s: Seq<(K, V)>) -> bool { self@ == seq_to_map(s) }
     }
     impl<K, V> FromPairs<K, V> for IndexMap<K, V> {
-        open spec fn built_from(&self, s: Seq<(K, V)>) -> bool { self@ == seq_to_map(s) }
+        open spec fn built_from(&self, s: Seq<(K, V)>) -> bool { *self == IndexMap::<K, V>::from_seq(s) }
     }
 
     // ---- proved facts about the two spec fns (no trust) ---------------------------------------
@@ -303,5 +303,5 @@ pub mod nmaps {
         assert(t.dom() =~= m.dom());
     }
 
-    pub broadcast group group_nmaps { ax_btree_of_view, ax_btree_ext }
+    pub broadcast group group_nmaps { ax_btree_of_view, ax_btree_ext, ax_btree_sorted, ax_index_from_seq }
 }
